@@ -2,10 +2,12 @@ SPECIFICATION Spec
 CONSTANTS
   Procs = {1, 2}
   PageOf <- PO2
+  RDepth = 1
 INVARIANT MutexP
 INVARIANT MutexM
 INVARIANT XAlways
 INVARIANT WOnlyInM
 INVARIANT Quiescent
+INVARIANT NoReadWhileWrite
 CONSTRAINT Bound
-CHECK_DEADLOCK FALSE
+CHECK_DEADLOCK TRUE
